@@ -1142,6 +1142,11 @@ func (dc *driverContextInsertion) transition(driver stateTableDriver, entry tabl
 
 	markLoc := len(buffer.outInfo)
 	currentInsertIndex, markedInsertIndex := entry.AsMorxInsertion()
+	// pathological cases: the buffer arrays are not allowed to grow beyond maxLen
+	// (each insertion at the mark costs a time and a growth proportional to the distance to the mark)
+	if len(buffer.outInfo) > buffer.maxLen || len(buffer.Info) > buffer.maxLen {
+		buffer.maxOps = 0
+	}
 	if markedInsertIndex != 0xFFFF {
 		count := int(flags & miMarkedInsertCount)
 		buffer.maxOps -= count
